@@ -21,6 +21,50 @@ def _norm(lines):
     return norm_report(''.join(lines))
 
 
+def global_state():
+    """Module-level and class-level state of the simulator that a run has no business changing: the attributes of every
+    enum member (option lists carry coefficients) and every module-level / class-level list, dict, set or tuple of plain
+    values, in the simulator's own modules.  Returned as {qualified name: repr}."""
+    import enum
+    out = {}
+
+    def plain(v, depth=0):
+        if isinstance(v, (int, float, str, bool, type(None))):
+            return True
+        if isinstance(v, (list, tuple, set, frozenset)) and depth < 3:
+            return len(v) <= 2000 and all(plain(x, depth + 1) for x in v)
+        if isinstance(v, dict) and depth < 3:
+            return len(v) <= 2000 and all(isinstance(k, (int, float, str)) and plain(x, depth + 1) for k, x in v.items())
+        return False
+
+    def show(v):
+        if isinstance(v, (set, frozenset)):
+            return repr(sorted(map(repr, v)))
+        if isinstance(v, dict):
+            return repr(sorted((repr(k), repr(x)) for k, x in v.items()))
+        return repr(v)
+    for modname, mod in list(sys.modules.items()):
+        if mod is None or not (modname == 'geophires_x' or modname.startswith('geophires_x.') or modname.startswith('hip_ra_x')):
+            continue
+        for name, v in list(vars(mod).items()):
+            if name.startswith('__'):
+                continue
+            q = f'{modname}.{name}'
+            if isinstance(v, (list, dict, set)) and plain(v):
+                out[q] = show(v)
+            elif isinstance(v, type) and getattr(v, '__module__', None) == modname:
+                if issubclass(v, enum.Enum):
+                    for member in v:
+                        attrs = {k: x for k, x in vars(member).items() if k not in ('_value_', '_name_', '__objclass__', '_sort_order_')
+                                 and plain(x)}
+                        out[f'{q}.{member.name}'] = show(attrs)
+                else:
+                    for k, x in list(vars(v).items()):
+                        if not k.startswith('__') and isinstance(x, (list, dict, set)) and plain(x):
+                            out[f'{q}.{k}'] = show(x)
+    return out
+
+
 def main():
     from gxv import env
     env.bootstrap()
@@ -52,6 +96,7 @@ def main():
     clients = {}
     inputs = {}             # (client, rid) -> GeophiresInputParameters (re-used so the cache key repeats)
     hist = []
+    state0 = None
     for step, op in enumerate(spec['ops']):
         kind = op['op']
         if kind == 'client':
@@ -103,6 +148,15 @@ def main():
                 rec['cwd_after'] = 'UNAVAILABLE:' + type(ex).__name__
             rec['argv_after'] = list(map(str, sys.argv))
             rec['argv_same_object'] = sys.argv is argv_obj0
+            # process-global state of the simulator's modules: whatever it is after the first call, later calls must leave it so
+            st = global_state()
+            if state0 is None:
+                state0 = st
+                rec['global_state_items'] = len(st)
+            else:
+                changed = sorted(k for k in set(st) | set(state0) if st.get(k) != state0.get(k))
+                rec['global_state_items'] = len(st)
+                rec['global_state_changed'] = [{'name': k, 'first': (state0.get(k) or '')[:120], 'now': (st.get(k) or '')[:120]} for k in changed[:5]]
             hist.append(rec)
             # a harness must not let one violation cascade: restore what the caller had
             with contextlib.suppress(OSError):
